@@ -1371,6 +1371,7 @@ package kafka
 //@   trusted hands the error to the Reader's error channel (or gives up when the context ends)
 //@ func (*reader).readOffsets
 //@   trusted asks the connection for the first and last offsets of the partition
+//@ property C02 C09
 //@ func (*reader).run
 //@   requires !r.$positioned
 //@   assume a partition reader is created for one run: nothing has positioned it before run starts (ghost $positioned is false)
@@ -1381,10 +1382,16 @@ package kafka
 //@   callsite (*reader).initialize ensures result2 == nil ==> r.$positioned && r.$next == int(result1)
 //@   callsite (*reader).initialize ensures result2 != nil ==> r.$positioned == old(r.$positioned) && r.$next == old(r.$next)
 //@   callsite (*reader).read requires $2 == offset#0
-//@   callsite (*reader).read modifies r.$next
-//@   callsite (*reader).read ensures r.$next == int(result0) && r.$positioned == old(r.$positioned)
+//@   callsite (*reader).read modifies r.$next, r.$polled
+//@   callsite (*reader).read ensures r.$next == int(result0) && r.$positioned == old(r.$positioned) && !r.$polled
+// C09: every fetch is preceded by a look at the reader's context (sleep returns false once it is cancelled), also when the
+// previous fetch succeeded or came back empty: an idle partition cannot keep the fetcher, and Reader.Close, going for ever
+//@   callsite sleep modifies r.$polled
+//@   callsite sleep ensures r.$polled
+//@   callsite (*reader).read requires r.$polled
 //@   loop 0 invariant r.$positioned ==> int(offset#0) >= r.$next
 //@   loop 1 invariant r.$positioned && int(offset#0) >= r.$next
+//@ property C02
 //@ func (*Reader).activateReadLag
 //@   trusted starts the lag-reporting goroutine once
 //@ func (*Reader).getTopicPartitionOffset
